@@ -249,6 +249,11 @@ pub fn write_evidence(cfg: &Config, stats: &Stats, out: &Outcome, wall_s: f64, e
     coverage.insert("exhaustive".into(), json!(ex.exhaustive));
     coverage.insert("simulated_runs_per_hour".into(), json!(runs_per_hour));
     coverage.insert(
+        "seeds".into(),
+        json!({"verif_seed": cfg.seed, "note": "one VERIF_SEED per invocation; every simulated run derives its own PRNG stream from (seed, scenario, run index)",
+               "verif_seeds_per_hour_at_this_tier": if wall_s > 0.0 { (3600.0 / wall_s) as u64 } else { 0 }}),
+    );
+    coverage.insert(
         "simulated_time".into(),
         json!({"unit": "logical steps (seam calls: reads, writes, serializer/visitor calls, Unstructured pulls); nutype reads no clock, so there is no simulated wall-clock", "steps": stats.steps}),
     );
